@@ -194,8 +194,15 @@ func addrAddImm(a model.Addr, imm int32) model.Addr {
 	if imm >= 0 {
 		return a + model.Addr(imm)
 	} else {
-		return a - model.Addr(-imm)
+		// Negation in 64 bits as -imm overflows for the minimal int32.
+		return a - model.Addr(-int64(imm))
 	}
+}
+
+// addrConst converts address a to a constant of width w. Bits of a above w
+// are dropped as address arithmetic wraps around in w bytes.
+func addrConst(a model.Addr, w expr.Width) expr.Const {
+	return expr.ConstFromUint(uint64(a)).WithWidth(w)
 }
 
 func immConst(t immType, i instruction, w expr.Width) expr.Const {
@@ -289,7 +296,7 @@ func addrImmConst(t immType, i instruction, w expr.Width) expr.Const {
 	if !ok {
 		panic(fmt.Sprintf("immediate encoding %d has no value", t))
 	}
-	return expr.NewConstUint(addrAddImm(i.addr, imm), w)
+	return addrConst(addrAddImm(i.addr, imm), w)
 }
 
 func branchCmp(
@@ -299,7 +306,7 @@ func branchCmp(
 	w expr.Width,
 ) expr.Effect {
 	jumpTarget := addrImmConst(immTypeB, i, w)
-	nextInstr := expr.NewConstUint(i.addr+instructionLen, w)
+	nextInstr := addrConst(i.addr+instructionLen, w)
 
 	condTrue, condFalse := jumpTarget, nextInstr
 	if !branchIfTrue {
